@@ -456,8 +456,12 @@ def _global_phase_controlled(ctx, repo):
         def __init__(self, exponent):
             self.exponent = exponent
 
-        def controlled(self, n, cvs, shape):
-            return ('Z', self.exponent, n, list(cvs), tuple(shape))
+        def controlled(self, num_controls=None, control_values=None, control_qid_shape=None):
+            # the library defaults: all controls on 1, all qubits
+            n = num_controls if num_controls is not None else len(control_values if control_values is not None else control_qid_shape or ())
+            cvs = list(control_values) if control_values is not None else [(1,)] * n
+            shape = tuple(control_qid_shape) if control_qid_shape is not None else (2,) * n
+            return ('Z', self.exponent, n, cvs, shape)
     cases = [
         ([(0,), (2,), (1,)], (3, 4, 2), True),
         ([(1,), (0,), (1,)], (2, 3, 2), True),
